@@ -53,13 +53,16 @@ def mkMode (B : BlockCipher) (key : Bytes) (iv : Option Bytes) : Except Err (B.K
 def feedAll (data : Bytes) : Except Err (List Bytes) :=
   if data.length = 0 ∨ data.length % 16 ≠ 0 then .error .bareException else .ok (chunks 16 data)
 
-def encrypt (B : BlockCipher) (key : Bytes) (iv : Option Bytes) (data : Bytes) : Except Err Bytes := do
+/-- the adapter rejects empty data itself (`ValueError`) before the mode object is built -/
+def encrypt (B : BlockCipher) (key : Bytes) (iv : Option Bytes) (data : Bytes) : Except Err Bytes :=
+  if data.length = 0 then .error .valueError else do
   let (k, ivb) ← mkMode B key iv
   let blocks ← feedAll (zeroPad data)
   pure (cbcEncBlocks B k ivb blocks).flatten
 
 /-- after the repair of D2 the adapter returns the padded plaintext unchanged -/
-def decrypt (B : BlockCipher) (key : Bytes) (iv : Option Bytes) (data : Bytes) : Except Err Bytes := do
+def decrypt (B : BlockCipher) (key : Bytes) (iv : Option Bytes) (data : Bytes) : Except Err Bytes :=
+  if data.length = 0 ∨ data.length % 16 ≠ 0 then .error .valueError else do
   let (k, ivb) ← mkMode B key iv
   let blocks ← feedAll data
   pure (cbcDecBlocks B k ivb blocks).flatten
